@@ -96,6 +96,50 @@ pub fn walk_order_case(tree: &crate::tree::Tree, hunk: usize, srcs: &SrcCache, s
         }
     }
     let _ = std::fs::remove_dir_all(&arch);
+    // "Every listing": also the stitched listing of an interrupted version. The first version is
+    // written as one hunk, the second (same tree) with small hunks and killed after each of them,
+    // so the listing resumes inside the older hunk at every possible path.
+    if tree.len() >= 3 {
+        let arch = scratch.fresh("a");
+        run::do_create_archive(&arch);
+        let o = run::do_backup(&arch, &dir, &BOpts::new(1000, 1 << 20, 1 << 20), run::NOHOOK, Flavor::Current);
+        if o.ok_stats().is_some() {
+            let base = Snap::load(&arch);
+            let small = BOpts::new(if hunk == 2 { 2 } else { 1 }, 1 << 20, 1 << 20);
+            let probe = scratch.fresh("p");
+            base.store(&probe);
+            let icpt = crate::hook::Icpt::new(&probe, crate::hook::Plan::none());
+            let _ = run::do_backup(&probe, &dir, &small, Some(&icpt), Flavor::Current);
+            let trace = icpt.take_log();
+            let mut after_hunk = false;
+            for r in trace.iter().filter(|r| r.is_mutating()) {
+                if after_hunk {
+                    let a2 = scratch.fresh("a2");
+                    base.store(&a2);
+                    let ic = crate::hook::Icpt::new(&a2, crate::hook::Plan::crash(r.idx, false));
+                    let oc = run::do_backup(&a2, &dir, &small, Some(&ic), Flavor::Current);
+                    if oc.crashed {
+                        let (lo, listed) = run::do_list(&a2, run::Sel::Band(1), "/", &[], run::NOHOOK);
+                        let l: Vec<String> = listed.into_iter().map(|e| e.apath).collect();
+                        if !lo.is_ok() || l != expected {
+                            v.push(Violation::new(
+                                "C11:stitched-listing-order",
+                                format!(
+                                    "tree {brief}: second version (hunks of {}) killed before op {}: listing gives {l:?}, documented order of the same paths is {expected:?} ({})",
+                                    small.hunk,
+                                    r.idx,
+                                    lo.describe()
+                                ),
+                            ));
+                        }
+                    }
+                    let _ = std::fs::remove_dir_all(&a2);
+                }
+                after_hunk = r.path.contains("/i/") && r.verb == conserve::transport::record::Verb::Write;
+            }
+        }
+        let _ = std::fs::remove_dir_all(&arch);
+    }
     v
 }
 
